@@ -675,9 +675,13 @@ impl Scaler for FreeTypeScaler<'_> {
                     .ok_or(InsufficientMemory)?;
                 original_scaled.copy_from_slice(scaled);
                 // When hinting, round the phantom points.
-                for point in &mut scaled[phantom_start..] {
-                    point.x = point.x.round();
-                    point.y = point.y.round();
+                // FreeType rounds pp1.x, pp2.x, pp3.y and pp4.y only.
+                for (i, point) in scaled[phantom_start..].iter_mut().enumerate() {
+                    if i < 2 {
+                        point.x = point.x.round();
+                    } else {
+                        point.y = point.y.round();
+                    }
                 }
                 let mut input = HintOutline {
                     glyph_id,
@@ -938,10 +942,13 @@ impl Scaler for FreeTypeScaler<'_> {
                     .contours
                     .get_mut(contour_base..self.contour_count)
                     .ok_or(InsufficientMemory)?;
-                // Round the phantom points.
-                for p in &mut scaled[phantom_start..] {
-                    p.x = p.x.round();
-                    p.y = p.y.round();
+                // Round the phantom points (pp1.x, pp2.x, pp3.y and pp4.y only, like FreeType).
+                for (i, p) in scaled[phantom_start..].iter_mut().enumerate() {
+                    if i < 2 {
+                        p.x = p.x.round();
+                    } else {
+                        p.y = p.y.round();
+                    }
                 }
                 // Clear the "touched" flags that are used during IUP processing.
                 for flag in flags.iter_mut() {
